@@ -169,7 +169,9 @@ static size_t hexnum(const char **pp) {
 
 typedef struct { unsigned char *p; size_t size; } Slot;
 
-static void put_alloc_result(void *res, int err, size_t total) {
+/* returns 0 when the result must not be used (it does not fit the backend block it lies in) */
+static int put_alloc_result(void *res, int err, size_t total) {
+	int usable = 1;
 	char q[64];
 	fmt_ptr(q, sizeof q, res); put(q);
 	putf("/e%llu/", (unsigned long long)err);
@@ -181,8 +183,13 @@ static void put_alloc_result(void *res, int err, size_t total) {
 		if (k >= 0 && blk[k].size >= sizeof(size_t)) { size_t h; memcpy(&h, blk[k].base, sizeof h); putf("%llx", h); }
 		else put("?");
 		put("/");
-		put_rle(res, total);
+		/* never read past the backend block the result lies in: "!" = the block is too small */
+		if (k >= 0 && (const unsigned char *)res >= blk[k].base
+		    && (size_t)((const unsigned char *)res - blk[k].base) <= blk[k].size
+		    && total <= blk[k].size - (size_t)((const unsigned char *)res - blk[k].base)) put_rle(res, total);
+		else { put("!"); usable = 0; }
 	} else put("-/-");
+	return usable;
 }
 
 static void run_hist(char *capf, char *failf, char *opsf) {
@@ -226,8 +233,7 @@ static void run_hist(char *capf, char *failf, char *opsf) {
 			if (kind == 'm') { res = mm.malloc(&mm, a); total = a; }
 			else { res = mm.calloc(&mm, a, b); if (__builtin_mul_overflow(a, b, &total)) total = 0; }
 			err = errno;
-			put_alloc_result(res, err, total);
-			if (res) { slot[s].p = res; slot[s].size = total; }
+			if (put_alloc_result(res, err, total) && res) { slot[s].p = res; slot[s].size = total; }
 			break; }
 		case 'r': case 'a': {
 			size_t a = hexnum(&p), b = (kind == 'a') ? hexnum(&p) : 0, total; int ovf = 0;
@@ -236,8 +242,9 @@ static void run_hist(char *capf, char *failf, char *opsf) {
 			if (kind == 'r') { res = mm.realloc(&mm, slot[s].p, a); total = a; }
 			else { res = mm.reallocarray(&mm, slot[s].p, a, b); ovf = __builtin_mul_overflow(a, b, &total); if (ovf) total = 0; }
 			err = errno;
-			put_alloc_result(res, err, total);
-			if (res) { slot[s].p = res; slot[s].size = total; }
+			int usable = put_alloc_result(res, err, total);
+			if (res && !usable) { slot[s].p = NULL; slot[s].size = 0; }
+			else if (res) { slot[s].p = res; slot[s].size = total; }
 			else if (slot[s].p && !ovf && total == 0) { slot[s].p = NULL; slot[s].size = 0; }
 			break; }
 		case 'f': {
